@@ -628,3 +628,159 @@ func UNFOLD_Prepopulated(h *rt.H) {
 	}
 	h.Assert("exactly-the-stream", ok)
 }
+
+type nmStruct struct {
+	M map[string][]int8
+	N int8
+}
+
+// UNFOLD_NestedMaps (C13): maps handled by the reflection based map unfolder nested
+// in one another and in structs: every element lands under its own key.
+func UNFOLD_NestedMaps(h *rt.H) {
+	which := h.Choose("target", 0, 2)
+	byRef := h.Choose("byRef", 0, 1) == 1
+	x, y := int8(h.U8("x")), int8(h.U8("y"))
+	var (
+		mm map[string]map[string][]int8
+		ms map[string]nmStruct
+		sm nmStruct
+	)
+	target := []interface{}{&mm, &ms, &sm}[which]
+	u, err := gotype.NewUnfolder(target)
+	h.Assert("unfolder-created", err == nil)
+	v := structform.EnsureExtVisitor(u)
+	key := func(k string) error {
+		if !byRef {
+			return v.OnKey(k)
+		}
+		buf := []byte(k)
+		e := v.OnKeyRef(buf)
+		for i := range buf {
+			buf[i] = 0xEE
+		}
+		return e
+	}
+	step := func(e error) {
+		if err == nil {
+			err = e
+		}
+	}
+	arr := func(val int8) {
+		step(v.OnArrayStart(1, structform.AnyType))
+		step(v.OnInt8(val))
+		step(v.OnArrayFinished())
+	}
+	switch which {
+	case 0: // {"o1":{"i1":[x],"i2":[y]},"o2":{"i3":[y]}}
+		step(v.OnObjectStart(2, structform.AnyType))
+		step(key("o1"))
+		step(v.OnObjectStart(2, structform.AnyType))
+		step(key("i1"))
+		arr(x)
+		step(key("i2"))
+		arr(y)
+		step(v.OnObjectFinished())
+		step(key("o2"))
+		step(v.OnObjectStart(1, structform.AnyType))
+		step(key("i3"))
+		arr(y)
+		step(v.OnObjectFinished())
+		step(v.OnObjectFinished())
+		h.Assert("no-error", err == nil)
+		ok := len(mm) == 2 && len(mm["o1"]) == 2 && len(mm["o2"]) == 1 &&
+			len(mm["o1"]["i1"]) == 1 && len(mm["o1"]["i2"]) == 1 && len(mm["o2"]["i3"]) == 1
+		if ok {
+			ok = rt.And(mm["o1"]["i1"][0] == x, rt.And(mm["o1"]["i2"][0] == y, mm["o2"]["i3"][0] == y))
+		}
+		h.Assert("value", ok)
+	case 1: // {"a":{"m":{"k":[x]},"n":y},"b":{"n":x}}
+		step(v.OnObjectStart(-1, structform.AnyType))
+		step(key("a"))
+		step(v.OnObjectStart(-1, structform.AnyType))
+		step(key("m"))
+		step(v.OnObjectStart(-1, structform.AnyType))
+		step(key("k"))
+		arr(x)
+		step(v.OnObjectFinished())
+		step(key("n"))
+		step(v.OnInt8(y))
+		step(v.OnObjectFinished())
+		step(key("b"))
+		step(v.OnObjectStart(-1, structform.AnyType))
+		step(key("n"))
+		step(v.OnInt8(x))
+		step(v.OnObjectFinished())
+		step(v.OnObjectFinished())
+		h.Assert("no-error", err == nil)
+		ok := len(ms) == 2 && len(ms["a"].M) == 1 && len(ms["a"].M["k"]) == 1 && len(ms["b"].M) == 0
+		if ok {
+			ok = rt.And(ms["a"].M["k"][0] == x, rt.And(ms["a"].N == y, ms["b"].N == x))
+		}
+		h.Assert("value", ok)
+	case 2: // {"m":{"p":[x],"q":[y]},"n":y}
+		step(v.OnObjectStart(-1, structform.AnyType))
+		step(key("m"))
+		step(v.OnObjectStart(-1, structform.AnyType))
+		step(key("p"))
+		arr(x)
+		step(key("q"))
+		arr(y)
+		step(v.OnObjectFinished())
+		step(key("n"))
+		step(v.OnInt8(y))
+		step(v.OnObjectFinished())
+		h.Assert("no-error", err == nil)
+		ok := len(sm.M) == 2 && len(sm.M["p"]) == 1 && len(sm.M["q"]) == 1
+		if ok {
+			ok = rt.And(sm.M["p"][0] == x, rt.And(sm.M["q"][0] == y, sm.N == y))
+		}
+		h.Assert("value", ok)
+	}
+}
+
+type inl2 struct{ C, D int16 }
+type inl1 struct {
+	B  int16
+	I2 inl2 `struct:",inline"`
+}
+type inlOuter struct {
+	A  int64
+	I1 inl1  `struct:",inline"`
+	G1 int16 `struct:"-"`
+	G2 int16 `struct:"-"`
+}
+
+// UNFOLD_InlineNested (C13, C14): a struct target whose inlined struct (not at
+// offset 0) itself inlines a struct: every member lands in its own field and
+// nothing else is written (guard fields behind the inlined part stay untouched).
+func UNFOLD_InlineNested(h *rt.H) {
+	a, b, c, d := int8(h.U8("a")), int8(h.U8("b")), int8(h.U8("c")), int8(h.U8("d"))
+	// every field starts out different from what the stream assigns, so that a field
+	// that is not written (or written elsewhere) shows for every input
+	to := inlOuter{A: int64(a) + 1, I1: inl1{B: int16(b) + 1, I2: inl2{C: int16(c) + 1, D: int16(d) + 1}}, G1: 771, G2: 772}
+	u, err := gotype.NewUnfolder(&to)
+	h.Assert("unfolder-created", err == nil)
+	if err != nil {
+		return
+	}
+	v := structform.EnsureExtVisitor(u)
+	step := func(e error) {
+		if err == nil {
+			err = e
+		}
+	}
+	step(v.OnObjectStart(-1, structform.AnyType))
+	step(v.OnKey("a"))
+	step(v.OnInt8(a))
+	step(v.OnKey("b"))
+	step(v.OnInt8(b))
+	step(v.OnKey("c"))
+	step(v.OnInt8(c))
+	step(v.OnKey("d"))
+	step(v.OnInt8(d))
+	step(v.OnObjectFinished())
+	h.Assert("no-error", err == nil)
+	ok := rt.And(to.A == int64(a), rt.And(to.I1.B == int16(b), rt.And(to.I1.I2.C == int16(c), to.I1.I2.D == int16(d))))
+	h.Assert("assigned", ok)
+	h.Assert("nothing-else-written", to.G1 == 771 && to.G2 == 772)
+}
